@@ -36,28 +36,33 @@ import (
 
 type baseSpec struct {
 	Msg, Kind, Target string
+	Memo              string `json:",omitempty"` // memo of the (natively signed) base transaction
 }
 
 var bases = []baseSpec{
-	{fsm.MessageSendName, txlab.KBLS, "fresh"},
-	{fsm.MessageSendName, txlab.KED, "fresh"},
-	{fsm.MessageSendName, txlab.KSECP, "fresh"},
-	{fsm.MessageSendName, txlab.KETH, "fresh"},
-	{fsm.MessageSendName, txlab.KMS2, "fresh"},
-	{fsm.MessageSendName, txlab.KRLP, "fresh"},
-	{fsm.MessageSendName, txlab.KRLPV2, "fresh"},
-	{fsm.MessageSubsidyName, txlab.KED, "fresh"},
-	{fsm.MessageSubsidyName, txlab.KRLPV2, "fresh"},
-	{fsm.MessageCreateOrderName, txlab.KSECP, "fresh"},
-	{fsm.MessageCreateOrderName, txlab.KRLP, "fresh"},
-	{fsm.MessageEditOrderName, txlab.KETH, "order-open"},
-	{fsm.MessageDeleteOrderName, txlab.KBLS, "order-open"},
-	{fsm.MessageStakeName, txlab.KBLS, "fresh"},
-	{fsm.MessageEditStakeName, txlab.KBLS, "custodial"},
-	{fsm.MessageDexLimitOrderName, txlab.KBLS, "fresh"},
-	{fsm.MessageDexLiquidityDepositName, txlab.KED, "fresh"},
-	{fsm.MessageDAOTransferName, txlab.KBLS, "fresh"},
-	{fsm.MessageCertificateResultsName, txlab.KBLS, "fresh"},
+	{fsm.MessageSendName, txlab.KBLS, "fresh", ""},
+	{fsm.MessageSendName, txlab.KED, "fresh", ""},
+	{fsm.MessageSendName, txlab.KSECP, "fresh", ""},
+	{fsm.MessageSendName, txlab.KETH, "fresh", ""},
+	{fsm.MessageSendName, txlab.KMS2, "fresh", ""},
+	{fsm.MessageSendName, txlab.KRLP, "fresh", ""},
+	{fsm.MessageSendName, txlab.KRLPV2, "fresh", ""},
+	{fsm.MessageSubsidyName, txlab.KED, "fresh", ""},
+	{fsm.MessageSubsidyName, txlab.KRLPV2, "fresh", ""},
+	{fsm.MessageCreateOrderName, txlab.KSECP, "fresh", ""},
+	{fsm.MessageCreateOrderName, txlab.KRLP, "fresh", ""},
+	{fsm.MessageEditOrderName, txlab.KETH, "order-open", ""},
+	{fsm.MessageDeleteOrderName, txlab.KBLS, "order-open", ""},
+	{fsm.MessageStakeName, txlab.KBLS, "fresh", ""},
+	{fsm.MessageEditStakeName, txlab.KBLS, "custodial", ""},
+	{fsm.MessageDexLimitOrderName, txlab.KBLS, "fresh", ""},
+	{fsm.MessageDexLiquidityDepositName, txlab.KED, "fresh", ""},
+	{fsm.MessageDAOTransferName, txlab.KBLS, "fresh", ""},
+	{fsm.MessageCertificateResultsName, txlab.KBLS, "fresh", ""},
+	// a natively signed transaction may carry the memo that marks Ethereum wrappers: index aliases and
+	// signature checks branch on the memo, not on the key type
+	{fsm.MessageSendName, txlab.KMS2, "fresh", "RLP"},
+	{fsm.MessageSendName, txlab.KBLS, "fresh", "RLP"},
 }
 
 type Job struct {
@@ -154,6 +159,8 @@ func sameContent(base, variant []byte) bool {
 }
 
 func buildBase(l *txlab.Lab, b baseSpec, seq uint64) *txlab.Built {
+	txlab.MemoOverride = b.Memo
+	defer func() { txlab.MemoOverride = "" }()
 	return txlab.Build(l, txlab.CaseID{Msg: b.Msg, Kind: b.Kind, Target: b.Target, Role: "owner", Mode: txlab.ModeHonest}, seq)
 }
 
